@@ -476,7 +476,9 @@ func (c *ctx) execRoundTrip(ws []string) (string, *violation) {
 	err = ziputil.UnzipDir(realDest, zr, true)
 	got := snapshot(realDest)
 	want := snapshot(src)
-	out := "names=" + strings.Join(names, ",") + " " + status(err) + " tree=" + treeOf(got)
+	// wf=true: the harness lists the tree in filepath.Walk order; the model answers
+	// with its own judgement (treeOK, the hypothesis of the round-trip theorem)
+	out := "wf=true names=" + strings.Join(names, ",") + " " + status(err) + " tree=" + treeOf(got)
 	if err != nil {
 		return out, &violation{"roundtrip-unzip-error", "UnzipDir refused or failed on an archive written by ZipDir: " + err.Error()}
 	}
@@ -1134,7 +1136,7 @@ func main() {
 		impl[i] = out
 		if verb := strings.Fields(op + " x")[0]; verb != "clean" && verb != "join" && verb != "islocal" && verb != "cdir" {
 			for _, w := range strings.Fields(out + " x") {
-				if !strings.HasPrefix(w, "names=") {
+				if !strings.HasPrefix(w, "names=") && !strings.HasPrefix(w, "wf=") {
 					rep.Count("status:" + verb + ":" + w)
 					break
 				}
